@@ -351,6 +351,12 @@ private:
   {
     _options = options;
 
+    if (!_options.error_notifier)
+    {
+      // an undefined error_notifier disables the notifications, see BackendOptions::error_notifier
+      _options.error_notifier = [](std::string const&) {};
+    }
+
     // Cache this thread's id
     _worker_thread_id.store(get_thread_id());
 
